@@ -305,10 +305,16 @@ func (p *Program) findFactCall(fs []Fact, pol bool, ids []string, argOK func(c *
 			continue
 		}
 		_ = idx
-		if !isCallTo(call.Common(), ids...) {
-			continue
+		cc := call.Common()
+		if !isCallTo(cc, ids...) {
+			// an equivalent spelling of the same API predicate (canonicalCall)
+			alt, isAlt := p.canonicalCall(cc)
+			if !isAlt || !isCallTo(alt, ids...) {
+				continue
+			}
+			cc = alt
 		}
-		if argOK == nil || argOK(call.Common()) {
+		if argOK == nil || argOK(cc) {
 			return f, true
 		}
 	}
@@ -729,4 +735,29 @@ func (p *Program) helperReturnsOnly(fn *ssa.Function, call ssa.Instruction) bool
 		}
 	}
 	return true
+}
+
+// canonicalCall recognises equivalent spellings of API predicates that rules look for by callee, and
+// presents them as a call of the canonical function with the canonical argument list:
+//
+//	slices.Contains(X.GetFinalizers(), f)  ==  controllerutil.ContainsFinalizer(X, f)
+//
+// (controllerutil.ContainsFinalizer is exactly that loop). Only spellings whose equivalence is
+// evident from the library source are listed.
+func (p *Program) canonicalCall(c *ssa.CallCommon) (*ssa.CallCommon, bool) {
+	if c == nil || c.IsInvoke() {
+		return nil, false
+	}
+	if calleeID(c) == "slices.Contains" && len(c.Args) == 2 {
+		if gc, _ := asCall(c.Args[0]); gc != nil && calleeName(gc.Common()) == "GetFinalizers" {
+			if recv := callRecv(gc.Common()); recv != nil {
+				if sp := p.SSA.ImportedPackage(pkgCtrlUtil); sp != nil {
+					if fn := sp.Func("ContainsFinalizer"); fn != nil {
+						return &ssa.CallCommon{Value: fn, Args: []ssa.Value{recv, c.Args[1]}}, true
+					}
+				}
+			}
+		}
+	}
+	return nil, false
 }
